@@ -127,9 +127,15 @@ def fmt_parts(s):
 class EscEval:
     """Evaluates the per-character body of the escaping function for one byte value."""
 
-    def __init__(self, f, cvar, result_decl):
+    def __init__(self, f, cvar, result_decl, F=None):
         self.f, self.cvar, self.res = f, cvar, result_decl
         self.arrays = {}
+        self.F = F                # for helpers called from the body (a lookup function, a predicate)
+        self.depth = 0
+
+    class _Ret(Exception):
+        def __init__(self, v):
+            self.v = v
 
     def val(self, n, env):
         n = strip(n)
@@ -141,10 +147,35 @@ class EscEval:
                 return int(n["cv"])
             except ValueError:
                 pass
+        if k == "StringLiteral":
+            return n.get("v", "")             # a pointer to literal text
+        if k in ("CXXNullPtrLiteralExpr", "GNUNullExpr"):
+            return 0
+        if k == "InitListExpr":
+            return [self.val(x, env) for x in kids(n)]
+        if k == "MemberExpr" and "fi" in n and kids(n):
+            b = self.val(kids(n)[0], env)
+            if isinstance(b, list) and 0 <= int(n["fi"]) < len(b):
+                return b[int(n["fi"])]
+            raise AnalysisBroken("C20.E1: member %s of a value that is no aggregate" % n.get("name"))
         if k == "DeclRefExpr":
             if n.get("declId") in env:
                 return env[n["declId"]]
+            if n.get("declId") in self.arrays:
+                return self.arrays[n["declId"]]
             raise AnalysisBroken("C20.E1: read of %s outside the fragment" % n.get("name"))
+        if k in ("CallExpr", "CXXMemberCallExpr") and self.F is not None and self.depth < 3:
+            g = getattr(self.F, "_by_id", {}).get(n.get("calleeId"))
+            if g is not None and g.body is not None and g.cfg is not None:
+                env2 = {p_["declId"]: self.val(a_, env) for p_, a_ in zip(g.params, call_args(n))}
+                self.depth += 1
+                try:
+                    self.run([g.body], env2, [])
+                except EscEval._Ret as r_:
+                    return r_.v
+                finally:
+                    self.depth -= 1
+                raise AnalysisBroken("C20.E1: %s ends without returning a value" % g.name)
         if k in ("CStyleCastExpr", "CXXStaticCastExpr", "CXXFunctionalCastExpr"):
             v = self.val(kids(n)[0], env)
             t = n.get("ct", n.get("t", ""))
@@ -187,6 +218,12 @@ class EscEval:
                 if i is None or not (0 <= i < len(s)):
                     raise AnalysisBroken("C20.E1: index %s outside the literal %r" % (i, s))
                 return ord(s[i])
+            bv = self.val(base, env)
+            if isinstance(bv, (list, str)):
+                i = self.val(idx, env)
+                if i is None or not (0 <= i < len(bv)):
+                    raise AnalysisBroken("C20.E1: index %s outside the table %r" % (i, bv))
+                return ord(bv[i]) if isinstance(bv, str) else bv[i]
         if k == "CallExpr" and n.get("callee", "").split("::")[-1] in ("iscntrl",):
             v = self.val(call_args(n)[0], env)
             return int(v < 0x20 or v == 0x7f)
@@ -199,9 +236,12 @@ class EscEval:
             out.extend(ord(ch) & 0xff for ch in a.get("v", ""))
         else:
             v = self.val(a, env)
-            if v is None:
+            if v is None or isinstance(v, list):
                 raise AnalysisBroken("C20.E1: unknown character value appended")
-            out.append(v & 0xff)
+            if isinstance(v, str):
+                out.extend(ord(ch) & 0xff for ch in v)       # text reached through a pointer
+            else:
+                out.append(v & 0xff)
 
     def run(self, stmts, env, out):
         """returns 'break' / 'continue' / None"""
@@ -226,9 +266,25 @@ class EscEval:
                         self.arrays[v["declId"]] = init.get("v", "")
                     elif init is not None:
                         env[v["declId"]] = self.val(init, env)
+            elif k == "ReturnStmt":
+                raise EscEval._Ret(self.val(kids(s)[0], env) if kids(s) else None)
+            elif k == "CXXForRangeStmt":
+                rng_, var_, body_ = range_for(s)
+                seq_ = self.val(rng_, env)
+                if not isinstance(seq_, (list, str)):
+                    raise AnalysisBroken("C20.E1: range-for over %s" % render(rng_)[:40])
+                for el_ in seq_:
+                    env[var_["declId"]] = ord(el_) if isinstance(seq_, str) else el_
+                    r = self.run([body_], env, out)
+                    if r == "break":
+                        break
             elif k == "IfStmt":
                 ks = s.get("c", [])
                 ks = [x for x in ks if x is not None]
+                if ks and ks[0]["k"] == "DeclStmt":
+                    # if (T v = e): the declared variable is the condition
+                    self.run([ks[0]], env, out)
+                    ks = ks[1:]
                 c = self.val(ks[0], env)
                 br = ks[1] if c else (ks[2] if len(ks) > 2 else None)
                 if br is not None:
@@ -664,7 +720,7 @@ def run(rep, ctx):
                 cval = byte
             else:
                 raise AnalysisBroken("C20.E1: loop variable type %s outside the fragment" % ct)
-            ev = EscEval(f, cdecl["declId"], rdecl)
+            ev = EscEval(f, cdecl["declId"], rdecl, F)
             out = []
             ev.run([lbody], {cdecl["declId"]: cval}, out)
             if not json_fragment_ok(byte, out):
